@@ -143,7 +143,18 @@ def rule_closure(ctx):
     ctx.floor("C11.e (product, earlier stage) pairs interpreted", n, 4)
 
 
+def rule_self_nesting(ctx):
+    """C11.f = C10.h on the semi-structured rewrites: "path access at any depth" — v['a']['b'], a cast of an extraction inside
+    another extraction, OBJECT_CONSTRUCT inside OBJECT_CONSTRUCT."""
+    from . import c11_wiring
+    from .c10 import NESTING_MATTERS
+    from .wiring import run_self_nesting
+
+    run_self_nesting(ctx, "C11.f", c11_wiring.cases(), NESTING_MATTERS)
+
+
 RULES = [
+    ("C11.f", rule_self_nesting, ("quick", "thorough")),
     ("C11.e", rule_closure, ("quick", "thorough")),
     ("C11.d", rule_wiring, ("quick", "thorough")),
     ("C11.d2", rule_cast_extract, ("quick", "thorough")),
